@@ -23,7 +23,7 @@ def c14(prop, tier):
                '(and names escaping into or looking like addresses) x 3 types x 2 write lists; non-trivial = behaviour with >=2 creates')
     r = vlib.tlc_check('MCRegistry.tla', rg_cfg(4 if thorough else 3), 'C14-small', timeout=900)
     ck.require_model_ok(r, 'Registry: marker state machine and address function')
-    sims, _ = vlib.tlc_simulate('MCRegistry.tla', rg_cfg(7), 'C14-sim', 200 if thorough else 40, 8, SEED)
+    sims, _ = vlib.tlc_simulate('MCRegistry.tla', rg_cfg(7), 'C14-sim', 800 if thorough else 40, 8, SEED)
     for b in sims:
         if [s['action'] for s in b['steps']].count('Create') >= 2:
             ck.distinct.add(vlib.beh_signature(b))
